@@ -137,11 +137,14 @@ def entry_points(mode, npts):
             ('Signal.gen_fa_spectrum(n=npts)', 'sig', {'n': npts})]
 
 
+_CTX = None
+
+
 def impl_spectrum(v, dt, kind, kw):
     import eqsig
     from eqsig.fns import frequency as fq
     if kind == 'prop':
-        s = eqsig.Signal(v, dt)
+        s = _CTX.aged(eqsig.Signal, v, dt) if _CTX is not None else eqsig.Signal(v, dt)
         return np.array(s.fa_spectrum), np.array(s.fa_frequencies)
     if kind in ('sig', 'acc'):
         s = (eqsig.Signal if kind == 'sig' else eqsig.AccSignal)(v, dt)
@@ -322,9 +325,19 @@ def max_period_case(ctx, kind, v, dt, kw=None):
     """C06.h on an AccSignal (its cached spectrum: default padding, or after gen_fa_spectrum(**kw))"""
     import eqsig
     from eqsig import im
-    asig = eqsig.AccSignal(np.asarray(v, dtype=float), dt)
+    asig = ctx.aged(eqsig.AccSignal, np.asarray(v, dtype=float), dt)
     if kw:
+        if ctx.rng.random() < 0.5:
+            # object history: everything derived from the spectrum is read BEFORE the explicit regeneration with another padding
+            _ = (asig.fa_spectrum, asig.fa_spectrum_abs, asig.fa_frequencies)
+            call_impl(im.max_fa_period, asig)
+            ctx.hist('object-history/read before gen_fa_spectrum(**kw)')
         asig.gen_fa_spectrum(**kw)
+        okm = np.array_equal(np.asarray(asig.fa_spectrum_abs), np.abs(np.asarray(asig.fa_spectrum))) and \
+            len(asig.fa_spectrum_abs) == len(asig.fa_frequencies)
+        ctx.oracle('C06 after gen_fa_spectrum(p2_plus / n) the object\'s fa_spectrum_abs is the modulus of its CURRENT spectrum, on the current grid',
+                   bool(okm), {'values': v, 'dt': dt, 'gen_fa_spectrum': kw, 'kind': kind},
+                   detail={'len_abs': len(asig.fa_spectrum_abs), 'len_spectrum': len(asig.fa_spectrum)})
     fas = np.array(asig.fa_spectrum)
     freqs = np.array(asig.fa_frequencies)
     inputs = {'values': v, 'dt': dt, 'gen_fa_spectrum': kw or {}, 'kind': kind}
@@ -422,6 +435,8 @@ CORPUS_PERIOD = [
 
 
 def run(ctx):
+    global _CTX
+    _CTX = ctx
     rng = ctx.rng
     quick = ctx.tier == 'quick'
     nmax = 512 if quick else 4096
